@@ -248,6 +248,37 @@ def ground_pointset_sampler():
         if got != want:
             problems.append(f"{reg!r}: sampler offers {len(got)} points, region contains {len(want)} of the set "
                             f"(e.g. missing {sorted(set(want) - set(got))[:2]})")
+    # the same intersection region sampled for several values of a random operand (candidates must not be stale)
+    from scenic.core.distributions import Range, Samplable
+
+    for mk in (lambda h: RectangularRegion(Vector(0.3, -0.4), h, 1.0, 5.0), lambda h: SectorRegion(Vector(0.3, -0.4), 3.0, h, 0.9)):
+        hd = Range(-3, 3)
+        lazy = mk(hd)
+        inter = ps.intersect(lazy)
+        for hv in (0.0, 1.2, 2.4, -1.0):
+            from scenic.core.utils import DefaultIdentityDict
+
+            saved_u = random.uniform
+            random.uniform = lambda a, b, hv=hv: hv
+            try:
+                sample = Samplable.sampleAll([inter])
+            finally:
+                random.uniform = saved_u
+            concrete, reg = sample[inter], sample[lazy]
+            offered = []
+            random.choice = lambda seq: (offered.append(list(seq)), seq[0])[1]
+            try:
+                try:
+                    concrete.uniformPointInner()
+                except Exception:
+                    offered.append([])
+            finally:
+                random.choice = saved
+            cases += 1
+            want = sorted(tuple(round(c, 6) for c in p) for p in pts if reg.containsPoint(Vector(*p)))
+            got = sorted(tuple(round(c, 6) for c in p) for p in (offered[0] if offered else []))
+            if got != want:
+                problems.append(f"resampled {reg!r}: sampler offers {len(got)} points, region contains {len(want)} of the set")
     return (not problems), " | ".join(problems)[:1200], cases
 
 
@@ -275,7 +306,8 @@ def _abstract_regions(ctx, n, dims=None, symbolic_sizes=True):
             return MEMBER[(self.name, point)]
 
         def containsPoint(self, point):
-            return MEMBER[(self.name, point)]
+            # footprint-style membership (ignores height): a superset of true membership
+            return True if MEMBER[(self.name, point)] else LOOSE[(self.name, point)]
 
         def containsObject(self, obj): raise NotImplementedError
         def containsRegionInner(self, other, tolerance): raise NotImplementedError
@@ -292,7 +324,13 @@ def _abstract_regions(ctx, n, dims=None, symbolic_sizes=True):
             self[key] = v
             return v
 
-    LOG, MEMBER = [], Member()
+    class Loose(dict):
+        def __missing__(self, key):
+            v = ctx.flag(f"{key[1][1]}#{key[1][2]}_above_or_below_{key[0]}")
+            self[key] = v
+            return v
+
+    LOG, MEMBER, LOOSE = [], Member(), Loose()
     regs = []
     for i in range(n):
         d = dims[i] if dims else 2
@@ -485,6 +523,12 @@ def obligations(tier, seed):
                    {"polygon": "concrete L-shape", "z": "symbolic", "rejections": "<=2"}, [R.PolygonalRegion.uniformPointInner],
                    rng + ["shapely.intersects_xy: symbolic Boolean"]),
     ]
+    from harness.c16_regions import h_footprint_cache
+
+    obs.append(Obligation("footprint-prism-cache", h_footprint_cache,
+                          "mesh x footprint composition: the cached vertical prism of a footprint covers the requested z range (so no part of the composed region is cut off from sampling)",
+                          {"cache": "arbitrary", "request": "any centre, height>0"}, [R.PolygonalFootprintRegion.approxBoundFootprint],
+                          ["boundFootprint (mesh extrusion): token recording its arguments"]))
     cfgs = [(2, [2, 2]), (2, [2, 1]), (3, [2, 2, 2])] if tier == "quick" else [(2, [2, 2]), (2, [2, 1]), (3, [2, 2, 2]), (3, [3, 2, 3]), (3, [1, 1, 2])]
     for n, dims in cfgs:
         ob = Obligation(f"union-sampler{dims}", h_union_sampler(n, dims), "UnionRegion.genericSampler over abstract operands",
